@@ -36,17 +36,17 @@ theorem mkdirs_keeps (w : World) (d x : Str) (h : x ∈ w.dirs) : x ∈ (w.mkdir
 /-- Every cache file is whole (decodable) and lies in an existing directory: no interrupted write, nobody removed a
     directory from under a file. -/
 structure VInv (S : Sem) (w : World) : Prop where
-  vtree : ∀ k tp ts ta g t f, KeyOK k → w.cache.get? (treePath S k tp ts ta g t) = some f → S.valid f.data = true ∧ dirname k ∈ w.dirs
+  vtree : ∀ k tp ts ta g t ch f, KeyOK k → w.cache.get? (treePath S k tp ts ta g t ch) = some f → S.valid f.data = true ∧ dirname k ∈ w.dirs
   vparser : ∀ gp st al g f, w.cache.get? (parserPath S gp st al g) = some f → S.valid f.data = true
   vsym : ∀ k ident f, '-' ∉ ident → w.cache.get? (symPath k ident) = some f → (S.decTab f.data).isSome = true
 
 theorem VInv.erase {S : Sem} {w : World} (h : VInv S w) (p : Str) : VInv S { w with cache := w.cache.erase p } := by
   refine ⟨?_, ?_, ?_⟩
-  · intro k tp ts ta g t f hk hget
+  · intro k tp ts ta g t ch f hk hget
     simp only [Dir.get?_erase] at hget
     split at hget
     · simp at hget
-    · exact h.vtree k tp ts ta g t f hk hget
+    · exact h.vtree k tp ts ta g t ch f hk hget
   · intro gp st al g f hget
     simp only [Dir.get?_erase] at hget
     split at hget
@@ -64,36 +64,36 @@ theorem VInv.eraseAll {S : Sem} {w : World} (h : VInv S w) (ps : List Str) : VIn
   | cons p ps ih => exact ih (h.erase p)
 
 theorem VInv.mkdirs {S : Sem} {w : World} (h : VInv S w) (d : Str) : VInv S (w.mkdirs d) :=
-  ⟨fun k tp ts ta g t f hk hget => ⟨(h.vtree k tp ts ta g t f hk hget).1, mkdirs_keeps w d _ (h.vtree k tp ts ta g t f hk hget).2⟩, h.vparser, h.vsym⟩
+  ⟨fun k tp ts ta g t ch f hk hget => ⟨(h.vtree k tp ts ta g t ch f hk hget).1, mkdirs_keeps w d _ (h.vtree k tp ts ta g t ch f hk hget).2⟩, h.vparser, h.vsym⟩
 
-theorem VInv.put_tree {S : Sem} (H : Hyp S) {w : World} (h : VInv S w) (key : Str) (hk : KeyOK key) (tp ts ta : Str) (g t m c : Nat) (data : Str)
+theorem VInv.put_tree {S : Sem} (H : Hyp S) {w : World} (h : VInv S w) (key : Str) (hk : KeyOK key) (tp ts ta : Str) (g t : Nat) (ch : Str) (m c : Nat) (data : Str)
     (hv : S.valid data = true) (hd : dirname key ∈ w.dirs) :
-    VInv S { w with cache := w.cache.put (treePath S key tp ts ta g t) ⟨data, m⟩, clock := c } := by
+    VInv S { w with cache := w.cache.put (treePath S key tp ts ta g t ch) ⟨data, m⟩, clock := c } := by
   refine ⟨?_, ?_, ?_⟩
-  · intro k' tp' ts' ta' g' t' f hk' hget
+  · intro k' tp' ts' ta' g' t' ch' f hk' hget
     simp only at hget
-    by_cases hp : treePath S k' tp' ts' ta' g' t' = treePath S key tp ts ta g t
-    · obtain ⟨rfl, rfl, rfl, rfl, rfl, rfl⟩ := treePath_inj H hp
+    by_cases hp : treePath S k' tp' ts' ta' g' t' ch' = treePath S key tp ts ta g t ch
+    · obtain ⟨rfl, rfl, rfl, rfl, rfl, rfl, rfl⟩ := treePath_inj H hp
       rw [Dir.get?_put_eq] at hget; cases hget
       exact ⟨hv, hd⟩
     · rw [Dir.get?_put_ne _ _ _ _ hp] at hget
-      exact h.vtree k' tp' ts' ta' g' t' f hk' hget
+      exact h.vtree k' tp' ts' ta' g' t' ch' f hk' hget
   · intro gp st al g' f hget
     simp only at hget
     rw [Dir.get?_put_ne _ _ _ _ (fun e => treePath_ne_parserPath H hk e.symm)] at hget
     exact h.vparser gp st al g' f hget
   · intro k ident f hi hget
     simp only at hget
-    rw [Dir.get?_put_ne _ _ _ _ (show symPath k ident ≠ treePath S key tp ts ta g t from symPath_ne_cachePath hi (H.tree_nodash _ _ _ _ _) jsonExt_nodash hk.1)] at hget
+    rw [Dir.get?_put_ne _ _ _ _ (show symPath k ident ≠ treePath S key tp ts ta g t ch from symPath_ne_cachePath hi (H.tree_nodash _ _ _ _ _ _) jsonExt_nodash hk.1)] at hget
     exact h.vsym k ident f hi hget
 
 theorem VInv.put_parser {S : Sem} (H : Hyp S) {w : World} (h : VInv S w) (gp st al : Str) (g m c : Nat) (data : Str)
     (hv : S.valid data = true) : VInv S { w with cache := w.cache.put (parserPath S gp st al g) ⟨data, m⟩, clock := c } := by
   refine ⟨?_, ?_, ?_⟩
-  · intro k' tp' ts' ta' g' t' f hk' hget
+  · intro k' tp' ts' ta' g' t' ch' f hk' hget
     simp only at hget
     rw [Dir.get?_put_ne _ _ _ _ (treePath_ne_parserPath H hk')] at hget
-    exact h.vtree k' tp' ts' ta' g' t' f hk' hget
+    exact h.vtree k' tp' ts' ta' g' t' ch' f hk' hget
   · intro gp' st' al' g' f hget
     simp only at hget
     by_cases hp : parserPath S gp' st' al' g' = parserPath S gp st al g
@@ -108,10 +108,10 @@ theorem VInv.put_parser {S : Sem} (H : Hyp S) {w : World} (h : VInv S w) (gp st 
 theorem VInv.put_sym {S : Sem} (H : Hyp S) {w : World} (h : VInv S w) (key ident table : Str) (m c : Nat) (hid : '-' ∉ ident) :
     VInv S { w with cache := w.cache.put (symPath key ident) ⟨S.encTab table, m⟩, clock := c } := by
   refine ⟨?_, ?_, ?_⟩
-  · intro k' tp' ts' ta' g' t' f hk' hget
+  · intro k' tp' ts' ta' g' t' ch' f hk' hget
     simp only at hget
-    rw [Dir.get?_put_ne _ _ _ _ (show treePath S k' tp' ts' ta' g' t' ≠ symPath key ident from cachePath_ne_symPath hk'.1 (H.tree_nodash _ _ _ _ _) hid jsonExt_nodash)] at hget
-    exact h.vtree k' tp' ts' ta' g' t' f hk' hget
+    rw [Dir.get?_put_ne _ _ _ _ (show treePath S k' tp' ts' ta' g' t' ch' ≠ symPath key ident from cachePath_ne_symPath hk'.1 (H.tree_nodash _ _ _ _ _ _) hid jsonExt_nodash)] at hget
+    exact h.vtree k' tp' ts' ta' g' t' ch' f hk' hget
   · intro gp st al g f hget
     simp only at hget
     rw [Dir.get?_put_ne _ _ _ _ (parserPath_ne_symPath H hid)] at hget
@@ -228,20 +228,20 @@ theorem treeGet_VS {S : Sem} (H : Hyp S) {w0 : World} {s : Sess} (h : VS S s) (h
     | some src =>
       dsimp only
       have hk : KeyOK key := hpts.inv.keys key src hsrc
-      have hc := cacheGet_VS (S := S) (s := s1) hp1.1 (dirname key) key (S.treeIdent s1.w.grammar s1.w.start s1.w.algo s1.w.grammarMtime src.mtime) jsonExt (S.parse pz src.data) false
-        (fun w m c hw hd => hw.put_tree H key hk _ _ _ _ _ m c _ (H.valid_parse _ _) hd)
-        (fun f hf => (hp1.1.vtree key _ _ _ _ _ f hk hf).1)
-      have hr := cacheGet_rest (S := S) (s := s1) (dir := dirname key) (key := key) (ident := S.treeIdent s1.w.grammar s1.w.start s1.w.algo s1.w.grammarMtime src.mtime)
+      have hc := cacheGet_VS (S := S) (s := s1) hp1.1 (dirname key) key (S.treeIdent s1.w.grammar s1.w.start s1.w.algo s1.w.grammarMtime src.mtime (treeHashArg S src.data)) jsonExt (S.parse pz src.data) false
+        (fun w m c hw hd => hw.put_tree H key hk _ _ _ _ _ _ m c _ (H.valid_parse _ _) hd)
+        (fun f hf => (hp1.1.vtree key _ _ _ _ _ _ f hk hf).1)
+      have hr := cacheGet_rest (S := S) (s := s1) (dir := dirname key) (key := key) (ident := S.treeIdent s1.w.grammar s1.w.start s1.w.algo s1.w.grammarMtime src.mtime (treeHashArg S src.data))
         (ext := jsonExt) (fresh := S.parse pz src.data) (bin := false)
       obtain ⟨hV, hmono, hen, hmiss, hok⟩ := hc
-      have hvs : VS S (cacheGet S s1 (dirname key) key (S.treeIdent s1.w.grammar s1.w.start s1.w.algo s1.w.grammarMtime src.mtime) jsonExt (S.parse pz src.data) false).1 :=
+      have hvs : VS S (cacheGet S s1 (dirname key) key (S.treeIdent s1.w.grammar s1.w.start s1.w.algo s1.w.grammarMtime src.mtime (treeHashArg S src.data)) jsonExt (S.parse pz src.data) false).1 :=
         ⟨hV, fun he k t hkt => hmono _ (hp1.2 (by rw [← hen]; exact he) k t (by rw [← hr.2.2.2.2.1]; exact hkt))⟩
       refine ⟨hvs, fun tree _ => ?_, fun herr sf _ => hok (hpok herr).1, fun herr hn => ?_⟩
       · apply hvs.addTree
         intro he
         have he1 : s1.w.enabled = true := by rw [← hen]; exact he
-        cases hf : s1.w.cache.get? (cachePath key (S.treeIdent s1.w.grammar s1.w.start s1.w.algo s1.w.grammarMtime src.mtime) jsonExt) with
-        | some f => exact hmono _ (hp1.1.vtree key _ _ _ _ _ f hk hf).2
+        cases hf : s1.w.cache.get? (cachePath key (S.treeIdent s1.w.grammar s1.w.start s1.w.algo s1.w.grammarMtime src.mtime (treeHashArg S src.data)) jsonExt) with
+        | some f => exact hmono _ (hp1.1.vtree key _ _ _ _ _ _ f hk hf).2
         | none => exact hmiss he1 hf
       · rw [← hsrcs, hsrc] at hn; cases hn
 
@@ -376,7 +376,7 @@ theorem treeGet_frame {S : Sem} (s : Sess) (key : Str) : WFrame s.w (treeGet S s
     · rename_i src _
       refine ⟨hf.trans (cacheGet_frame s1 _ _ _ _ _ _), fun pz' e => ?_⟩
       cases e
-      rw [(cacheGet_rest (S := S) (s := s1) (dir := dirname key) (key := key) (ident := S.treeIdent s1.w.grammar s1.w.start s1.w.algo s1.w.grammarMtime src.mtime)
+      rw [(cacheGet_rest (S := S) (s := s1) (dir := dirname key) (key := key) (ident := S.treeIdent s1.w.grammar s1.w.start s1.w.algo s1.w.grammarMtime src.mtime (treeHashArg S src.data))
         (ext := jsonExt) (fresh := S.parse pz src.data) (bin := false)).2.2.2.2.2.1, hp1]
 
 end Tranp.CacheFS
@@ -960,7 +960,7 @@ theorem step_VInv {S : Sem} (H : Hyp S) (w : World) (op : Op) (hnd : NoDamage op
   cases op with
   | edit k src => exact ⟨h.vtree, h.vparser, h.vsym⟩
   | run force => exact (run_Side H w force hw h).2.1
-  | clear => exact ⟨fun k tp ts ta g t f _ hget => by simp [step, World.clearCache, Dir.get?] at hget,
+  | clear => exact ⟨fun k tp ts ta g t ch f _ hget => by simp [step, World.clearCache, Dir.get?] at hget,
       fun gp st al g f hget => by simp [step, World.clearCache, Dir.get?] at hget,
       fun k ident f _ hget => by simp [step, World.clearCache, Dir.get?] at hget⟩
   | delete p => exact h.erase p
@@ -979,7 +979,7 @@ theorem exec_WV {S : Sem} (H : Hyp S) (w : World) (hist : List Op) (hok : ∀ op
       (step_WS H w op (hok op (by simp)) (hng op (by simp)) hac.1 h) (step_VInv H w op (hnd op (by simp)) h hv)
 
 theorem VInv.init {S : Sem} (w : World) (hc : w.cache = []) : VInv S w :=
-  ⟨fun k tp ts ta g t f _ hf => by simp [hc, Dir.get?] at hf, fun gp st al g f hf => by simp [hc, Dir.get?] at hf,
+  ⟨fun k tp ts ta g t ch f _ hf => by simp [hc, Dir.get?] at hf, fun gp st al g f hf => by simp [hc, Dir.get?] at hf,
     fun k ident f _ hf => by simp [hc, Dir.get?] at hf⟩
 
 /-- **Lockstep of the warm and the cold run.** For a coherent, undamaged world the run over the cache directory as it is and
@@ -987,7 +987,7 @@ theorem VInv.init {S : Sem} (w : World) (hc : w.cache = []) : VInv S w :=
     symbol table, rendered text and on the failure status. -/
 theorem run_warm_cold {S : Sem} (H : Hyp S) (w : World) (force : Bool) (hw : WS S w) (hv : VInv S w) :
     Rel (run S w force) (run S w.clearCache force) := by
-  have hwc : WS S w.clearCache := ⟨⟨hw.1.keys, hw.1.fresh, hw.1.gfresh, fun k tp ts ta g t f _ hf => by simp [World.clearCache, Dir.get?] at hf,
+  have hwc : WS S w.clearCache := ⟨⟨hw.1.keys, hw.1.fresh, hw.1.gfresh, fun k tp ts ta g t ch f _ hf => by simp [World.clearCache, Dir.get?] at hf,
     fun gp st al g f hf => by simp [World.clearCache, Dir.get?] at hf⟩, fun k ident f _ hf => by simp [World.clearCache, Dir.get?] at hf⟩
   have hvc : VInv S w.clearCache := VInv.init _ rfl
   have hside1 : Side S w ({ w := w } : Sess) :=
